@@ -119,9 +119,12 @@
     return rows;
   }
 
-  function finishCase(c, width, fa, fb) {
+  function finishCase(c, width, fa, fb, fc) {
     try {
       const custom = c.custom || [];
+      // alt: a third sheet (the input in an environment that understands more). A difference between A and B is
+      // waived where B computes what ALT computes ("… or in an environment that understands more of the input's syntax").
+      const rc = fc ? collect(fc.contentWindow, custom) : null;
       if (c.allDiffs) { const cs0 = fa.contentWindow.getComputedStyle(fa.contentWindow.document.body); const all = []; for (let i = 0; i < cs0.length; i++) all.push(cs0[i]); fa.contentWindow.__allProps = all; fb.contentWindow.__allProps = all; }
       const ra = collect(fa.contentWindow, custom), rb = collect(fb.contentWindow, custom);
       const names = (fa.contentWindow.__allProps || PROPS).concat(custom); const diffs = []; let compared = 0, nondefault = 0;
@@ -129,13 +132,13 @@
         compared++;
         const x = ra[i].vals[k], y = rb[i] ? rb[i].vals[k] : '<missing element>';
         if (c.base && c.base[i] && c.base[i][k] !== x) nondefault++;
-        if (!sameValue(x, y, names[k]) && diffs.length < (c.allDiffs ? 200 : 6)) diffs.push({ el: ra[i].key, prop: names[k], a: x, b: y, width });
+        if (!sameValue(x, y, names[k]) && !(rc && rc[i] && sameValue(rc[i].vals[k], y, names[k])) && diffs.length < (c.allDiffs ? 200 : 6)) diffs.push({ el: ra[i].key, prop: names[k], a: x, b: y, width });
       }
       results.push({ id: c.id, width, compared, diffs, rows: ra.length });
     } catch (e) { results.push({ id: c.id, width, error: String(e) }); }
-    fa.remove(); fb.remove();
     --pending;
   }
+  const finishCaseKeep = finishCase;
   function done() { out.textContent = JSON.stringify(results); document.title = 'DONE'; }
 
   function frame(css, dom, width, onload) {
@@ -157,9 +160,21 @@
       const { c, width } = jobs[next++];
       pending++;
       let loaded = 0; let fa, fb;
-      const go = () => { if (++loaded === 2) { finishCase(c, width, fa, fb); pump(); } };
+      let fc = null; const need = c.alt ? 3 : 2;
+      // Used values (height, width, …) depend on layout, and layout depends on fonts that load lazily: wait for the fonts of
+      // every frame, and re-measure once after a pause before a difference is believed (a difference must be stable).
+      const measure = (retry) => {
+        const before = results.length;
+        finishCaseKeep(c, width, fa, fb, fc);
+        const r = results[results.length - 1];
+        if (!retry && r && r.diffs && r.diffs.length) { results.length = before; ++pending; setTimeout(() => measure(true), 120); return; }
+        fa.remove(); fb.remove(); if (fc) fc.remove();
+        pump();
+      };
+      const go = () => { if (++loaded === need) { const fr = [fa, fb, fc].filter(Boolean).map(f => { try { return f.contentWindow.document.fonts.ready; } catch (e) { return null; } }); Promise.all(fr).then(() => measure(false), () => measure(false)); } };
       fa = frame(c.a, c.domA || c.dom, width, go);
       fb = frame(c.b, c.domB || c.dom, width, go);
+      if (c.alt) fc = frame(c.alt, c.domA || c.dom, width, go);
     }
     if (next >= jobs.length) started = true;
     if (pending === 0 && started) done();
